@@ -2,6 +2,6 @@ def setup(chk):
     chk.add_tu('C12.cpp')
     chk.add_tu('C12x.cpp')   # element constructors that throw: TU lowered with exceptions, translator's exception model
     chk.extra_evidence.update({
-        'bounds_text': 'Variant<Tr<0>,Tr<1>,u16>, Variant<u16,Tr<0>>, Variant<Tr<0>,Conv,u16>; 2 objects + 1 spare slot in arbitrary valid states (symbolic alternative, symbolic 32-bit payload); 13 operation kinds incl. self-assign, cross-alternative assign, Become with any int32 index, cross-variant assign, std::swap, destruction; K=1 step and K=2 (quick), K=3,4 (thorough) sequences',
+        'bounds_text': 'Variant<Tr<0>,Tr<1>,u16>, Variant<u16,Tr<0>>, Variant<Tr<0>,Conv,u16>; 2 objects + 1 spare slot in arbitrary valid states (symbolic alternative, symbolic 32-bit payload); 13 operation kinds incl. self-assign, cross-alternative assign, Become with any int32 index, cross-variant assign, std::swap, destruction; K=1 step and K=2 (quick), K=3 (thorough) sequences',
         'outside_bounds': ['typed catch clauses (only catch (...) is modelled by the translator)', 'Variants with more than 3 alternatives', 'IfAnyOf helpers'],
         'assumes': ['invariant used for the inductive step: model state = (alternative index, payload) per Variant; live tracked elements == number of Variants holding a tracked alternative']})
